@@ -58,8 +58,10 @@ TLC_NOISE = re.compile(r"^(Picked up|TLC2|Running|Parsing|Semantic|Starting|Comp
                        r"Progress|Linting|Warning: Please run|\(Use the|$)")
 
 
-def tlc(spec, cfg, workers=NCPU, metadir=None, extra="", env=None, timeout=3000, heap="8g", dfs=False):
-    """Run TLC; returns dict(rc, out, states, distinct, depth, violated, error)."""
+def tlc(spec, cfg, workers=NCPU, metadir=None, extra="", env=None, timeout=3000, heap="8g", dfs=False, out_path=None):
+    """Run TLC; returns dict(rc, out, states, distinct, depth, violated, error).
+    out_path: TLC's output goes to that file (millions of printed behaviours must not pass through memory); "out" is then
+    only what the statistics and verdicts are read from: the lines that are not printed behaviours, at most 2 MB of them."""
     md = metadir or (TLCDIR + "/%s.%d" % (os.path.basename(cfg), os.getpid()))
     shutil.rmtree(md, ignore_errors=True)
     e = {}
@@ -73,7 +75,21 @@ def tlc(spec, cfg, workers=NCPU, metadir=None, extra="", env=None, timeout=3000,
         e.update(env)
     cmd = "timeout %d tlc -noGenerateSpecTE -workers %s -metadir %s %s -config %s %s.tla" % (timeout, workers, md, extra, cfg, spec)
     t0 = time.time()
-    rc, out = sh(cmd, env=e, cwd=SPEC, timeout=timeout + 60)
+    if out_path:
+        rc, _ = sh(cmd + " > %s 2>&1" % out_path, env=e, cwd=SPEC, timeout=timeout + 60)
+        keep, size = [], 0
+        with open(out_path, errors="replace") as f:
+            for line in f:
+                if line.startswith('<<"@') or line.startswith('"@'):
+                    continue
+                keep.append(line)
+                size += len(line)
+                if size > 2000000:          # a long counterexample: the verdict lines come first, the statistics last
+                    keep = keep[:2000] + keep[-2000:]
+                    size = sum(len(x) for x in keep)
+        out = "".join(keep)
+    else:
+        rc, out = sh(cmd, env=e, cwd=SPEC, timeout=timeout + 60)
     shutil.rmtree(md, ignore_errors=True)
     shutil.rmtree(jtmp, ignore_errors=True)
     r = {"rc": rc, "out": out, "wall": time.time() - t0}
